@@ -283,6 +283,16 @@ def build_block(p):
             a = int(torch.randint(0, d, (1,), generator=g))
             z[j, a] = x[i, a]
             co_coords.append((i, j, a))
+    if mode == 'near':
+        # a point a tiny, exactly representable step away from a center, in one coordinate: the step is chosen so
+        # that the two readings of a coincidence mask (on the distance / on its q-th power) differ there.  Centers
+        # are put on a 2^-10 grid so that z - x is exact; no expansion-mode distance is involved (n <= 25, p != 2).
+        i = int(torch.randint(0, nx, (1,), generator=g))
+        j = int(torch.randint(0, nz, (1,), generator=g))
+        a = int(torch.randint(0, d, (1,), generator=g))
+        x[i] = torch.round(x[i] * 1024) / 1024
+        z[j] = x[i]
+        z[j, a] = x[i, a] + (1.0 if p['seed'] % 2 else -1.0) * 2.0 ** (-p['near_exp'])
     return x, z, c, T, h
 
 
@@ -308,6 +318,39 @@ def fd_check(res, kind_sig, gi, g_fd, S, leak, rows_ok, co_any, nondiff, label, 
             res['failures'].append({'signature': sig, 'detail':
                                     f'{label} output {l}, point {j}: returned {gi[l, j].tolist()} finite differences '
                                     f'{g_fd[l, j].tolist()} |diff| {float(err[l, j]):.3e} tolerance {float(tol[l, j]):.3e}'})
+    return worst
+
+
+def near_fd_check(res, kobj, k, T, x, z, c, gi, p):
+    """Property oracle at a point 2^-30 away from a center (not coinciding, distance >= eps: the true derivative is
+    required there).  One-sided-safe central differences with step δ/4 along the coordinate that differs, of the real
+    kernel matrix; tolerance = 1e-3·Σ_i|c_li||∂_a k_i| + the rounding of the differenced values 32·eps/h·Σ_i|c_li||k_i|."""
+    import torch
+    delta = 2.0 ** (-p['near_exp'])
+    h = delta / 4
+    near = ((z[None, :, :] - x[:, None, :]).abs().amax(dim=-1) == delta)          # (n_x, n_z)
+    worst = 0.0
+    for j in range(z.shape[0]):
+        cols = torch.nonzero(near[:, j]).flatten().tolist()
+        if not cols:
+            continue
+        i = cols[0]
+        a = int((z[j] - x[i]).abs().argmax())
+        e = torch.zeros_like(z[j]); e[a] = 1.0
+        Z = torch.stack([z[j] + h * e, z[j] - h * e, z[j] + h / 2 * e, z[j] - h / 2 * e])
+        Kp = kobj.get_kernel_matrix(x, Z, T)                                       # (n_x, 4)
+        gK = (4 * (Kp[:, 2] - Kp[:, 3]) / h - (Kp[:, 0] - Kp[:, 1]) / (2 * h)) / 3
+        g_fd = c @ gK
+        tol = 1e-3 * (c.abs() @ gK.abs()) + 32 * EPS64 / h * (c.abs() @ Kp.abs().amax(dim=1)) + 1e-300
+        err = (gi[:, j, a] - g_fd).abs()
+        r = err / tol
+        l = int(r.argmax())
+        worst = max(worst, float(r[l]))
+        if float(r[l]) > 1.0:
+            res['failures'].append({'signature': f'C04:gradient-not-derivative:near:{k["kind"]}', 'detail':
+                                    f'point {j} is 2^-{p["near_exp"]} from center {i} in coordinate {a} (q={k["q"]}): returned '
+                                    f'{float(gi[l, j, a]):.9e}, central differences (step δ/4) {float(g_fd[l]):.9e}, '
+                                    f'|diff| {float(err[l]):.3e} tolerance {float(tol[l]):.3e}'})
     return worst
 
 
@@ -346,6 +389,8 @@ def exec_block(p, drv):
         cancel, _, _ = l2_leak_terms(kobj, k['kind'], x, z, T, c.abs(), EPS64)
         worst_fd = fd_check(res, k['kind'], gi, g_fd, S, cancel + noise, rows_ok, co.any(dim=0), nondiff,
                             f'get_function_grads (mode {p["mode"]}, q={k["q"]}, transform {p["tm"]})')
+    if finite and p['mode'] == 'near' and p.get('near_exp') == 30:
+        worst_fd = max(worst_fd, near_fd_check(res, kobj, k, T, x, z, c, gi, p))
     # ---- correspondence with the Lean closed forms ------------------------------------------------------------
     m = drv.ask(driver_query(k, T, x, z, c))
     ratio = leak_rel = 0.0
@@ -402,6 +447,19 @@ def gen_blocks(r, n):
         cases.append({'family': 'kernel-grads-guards', 'kernel': k, 'd': r.randint(2, 5), 'nx': r.randint(2, 10),
                       'nz': r.randint(2, 6), 'f': r.choice([2, 3, 4]), 'mode': 'coord' if t % 2 else r.choice(['general', 'row']),
                       'tm': tm, 'scale': 1.0, 'ncoord': r.randint(1, 3), 'zero_diag': False, 'seed': r.randint(0, 2 ** 31 - 1)})
+    # near-coincidences between the two readings of the masks: the step 2^-30 has ‖Δ‖ >= eps but ‖Δ‖^q < eps for
+    # q >= 1.2; the step 2^-40 has ‖Δ‖ < eps but ‖Δ‖^q >= eps for q <= 0.7 (eps = 1e-10)
+    for t in range(max(12, n // 12)):
+        kind = ['prod', 'lpq', 'sumpower', 'prod'][t % 4]
+        q = [1.5, 0.5, 2.0, 0.7, 1.2, 1.0][t % 6]
+        k = gen_kernel(r, kind, q)
+        if kind == 'lpq':
+            k['p'] = r.choice([q, round(r.uniform(max(q, 0.3), 1.9), 3)]) if q < 2 else 1.7
+            k['q'] = min(k['q'], k['p'])
+        cases.append({'family': 'kernel-grads-near', 'kernel': k, 'd': r.randint(1, 4), 'nx': r.randint(1, 8),
+                      'nz': r.randint(1, 4), 'f': r.choice([1, 2, 3]), 'mode': 'near', 'tm': r.choice(['none', 'none', 'diag']),
+                      'scale': 1.0, 'near_exp': 30 if k['q'] > 1.1 else r.choice([30, 40]), 'zero_diag': False,
+                      'seed': r.randint(0, 2 ** 31 - 1)})
     return cases
 
 
@@ -719,7 +777,7 @@ def check(run):
                 'a case is non-trivial when the returned gradient has a non-zero entry')
     run.assumptions = ['inputs finite; transforms symmetric (None / diagonal / symmetric PSD), as produced by fit_M',
                        'points either in general position or coinciding exactly with a center / a center coordinate '
-                       '(0 < |Δ| < eps = 1e-10 is not generated)',
+                       '(near-coincidences 0 < |Δ| ~ eps are generated only for the cdist(p≠2) and coordinate-wise kernels, family kernel-grads-near)',
                        'CPU kernels only; xRFM level runs in float32 (xRFM.fit casts targets), finite differences there use '
                        'step 1e-2 and 2e-2 relative tolerance, rows within 1e-3 relative distance of a split threshold skipped']
     run.lean()
